@@ -35,6 +35,9 @@ type solver struct {
 	nQueries, nSat, nUnsat, nUnknown int
 	secs                             float64
 	pending                          strings.Builder
+	asserted                         []*Term
+	isFallback                       bool
+	nRetried                         int
 }
 
 func newSolver(kind solverKind, timeoutMs int) (*solver, error) {
@@ -76,6 +79,7 @@ func (s *solver) start() error {
 }
 
 func (s *solver) resetState() {
+	s.asserted = s.asserted[:0]
 	s.emitted = map[int]bool{}
 	s.ufDecl = map[string]bool{}
 }
@@ -177,6 +181,7 @@ func (s *solver) assert(t *Term) {
 	}
 	s.define(t)
 	s.send("(assert " + t.ref() + ")")
+	s.asserted = append(s.asserted, t)
 }
 
 type satResult int
@@ -262,12 +267,48 @@ func (s *solver) check(extra ...*Term) satResult {
 		s.nUnsat++
 		return resUnsat
 	default:
-		s.nUnknown++
 		if strings.Contains(resp, "(error") {
 			fmt.Printf("SOLVER-ERROR: %s\n", resp)
+			s.nUnknown++
+			return resUnknown
 		}
+		// inconclusive (time-out): retry the whole query one-shot on the other solvers
+		if !s.isFallback {
+			for _, kind := range []solverKind{solverZ3New, solverCVC5} {
+				if kind == s.kind {
+					continue
+				}
+				if r := s.retryElsewhere(kind, extra); r != resUnknown {
+					s.nRetried++
+					if r == resSat {
+						s.nSat++
+					} else {
+						s.nUnsat++
+					}
+					return r
+				}
+			}
+		}
+		s.nUnknown++
 		return resUnknown
 	}
+}
+
+// retryElsewhere re-asks the current assertions plus extra on a fresh process of another solver.
+func (s *solver) retryElsewhere(kind solverKind, extra []*Term) satResult {
+	o := &solver{kind: kind, timeout: 120000, isFallback: true}
+	if err := o.start(); err != nil {
+		return resUnknown
+	}
+	defer o.close()
+	o.reset()
+	for _, t := range s.asserted {
+		o.assert(t)
+	}
+	t0 := time.Now()
+	r := o.check(extra...)
+	s.secs += time.Since(t0).Seconds()
+	return r
 }
 
 // values fetches model values for the given variable terms after a sat answer.
